@@ -195,6 +195,11 @@ func roleMismatches(p *eng.Prog, pkgs map[string]bool) (n int, finds []roleFindi
 					}
 				}
 			case *ast.AssignStmt:
+				// a, b = b, a: an exchange of the two roles is a deliberate swap (mirrored coordinates), not a slip
+				if len(x.Lhs) == 2 && len(x.Rhs) == 2 &&
+					types.ExprString(x.Lhs[0]) == types.ExprString(x.Rhs[1]) && types.ExprString(x.Lhs[1]) == types.ExprString(x.Rhs[0]) {
+					return true
+				}
 				if len(x.Lhs) == len(x.Rhs) {
 					for i, l := range x.Lhs {
 						if sel, ok := l.(*ast.SelectorExpr); ok {
